@@ -556,6 +556,7 @@ func c05r4(c *core.Ctx) {
 	authFailureFinal(c, dec)
 	frameAtATime(c)
 	plaintextReadNoReadAhead(c)
+	plaintextBoundedByRequest(c)
 	// observed at Decrypt itself (C05 names both observation points): handed a stream that fails between two frames of a message,
 	// Decrypt drops the frames it has already authenticated and counted, and stays usable — the next call releases the frames that follow
 	decryptDropsPlaintext(c, "(*secureSession).Decrypt/stream-error-drops-authenticated-frames", true)
